@@ -153,6 +153,13 @@ func genC12(tier string, r *Rng, emit func(Case)) {
 		if errs != "" || (ver == "v3" && p.fn == 1 && v.fin3() == nil) {
 			continue
 		}
+		far := false
+		for _, rg := range p.rng {
+			far = far || rg[1] > 5000
+		}
+		if far {
+			continue // every fault point of such a layout costs the unary layout model the whole distance
+		}
 		var sink faultWriter
 		sink.left = 1 << 40
 		n, _ := fprintTo(&sink, ver, p, v, 0)
